@@ -5,8 +5,15 @@ PROP = {
     "glue": "GH", "chk": "chk17", "explain": "explainH",
     "gotags": ["shim_memory", "shim_redis", "shim_timecache"],
     "n": {"quick": 120, "thorough": 3000},
-    "rule": HIST_RULE + " Emphasis C17: announce/scrape/store-op mix; every scrape, response count, delete result and membership dump is compared.",
+    "rule": HIST_RULE + " Emphasis C17: totals after many operations incl. repeated puts, deletes of absent peers, expiry of whole swarms.",
     "tags": HIST_TAGS, "reasons": HIST_REASONS, "assumptions": HIST_ASSUMPTIONS,
     "trivial_tags": [], "min_tags": 4,
-    "explanation": "placeholder",
+    "explanation": "Coq theorems: in every reachable state of the memory store each shard's uint64 counters equal a recount of that shard modulo 2^64 (no decrement ever happens on a zero counter), proved by invariant over all histories; Redis counters equal the specification's totals after every sequential history (Proofs/RedisP.v). Tied to the code by reading, after generated histories, the per-shard counters, a recount through an overlay shim (memory) or directly from miniredis (Redis), and the Prometheus gauges after populateProm.",
+}
+
+CLAIM = {
+    "text": "Coq theorems: in every reachable state of the memory store each shard's uint64 counters equal a recount of that shard modulo 2^64 (no decrement ever happens on a zero counter), proved by invariant over all histories; Redis counters equal the specification's totals after every sequential history (Proofs/RedisP.v). Tied to the code by reading, after generated histories, the per-shard counters, a recount through an overlay shim (memory) or directly from miniredis (Redis), and the Prometheus gauges after populateProm.",
+    "design_ref": "DESIGN.md section 8, C17",
+    "note": 'PARTIAL for concurrent Redis expiry passes (DESIGN 9.A F11, known finding). Trusted: as C01.',
+    "technique": "Coq refinement/invariant proofs over executable Gallina store models + differential history correspondence (vm_compute)",
 }
